@@ -193,7 +193,7 @@ def main(tier, seed, replay=None):
                 m = list(zip(run.rng.sample(range(no), r), run.rng.sample(range(ns), r)))
                 cases.append((base, [("extend", frag, m)], "random-pair-large"))
             # fragments of 9-20 atoms of which all but two to four are declared identical to atoms of the structure
-            for rep in range(4 if tier == "quick" else 30):
+            for rep in range(8 if tier == "quick" else 30):
                 no = run.rng.randint(9, 20)
                 ns = no + run.rng.randint(2, 6)
                 base = tagged(run.rng, ns, "s", rep % 2 == 0, cell=CELL, rich=True, max_terms=4)
